@@ -176,11 +176,15 @@ pub struct SinkSpec {
     /// accept at most this many bytes, then fail every write
     pub enospc_after: Option<u64>,
     pub flush_error: bool,
+    /// how a full sink says so: false = every further write fails with an error (a disk), true = every
+    /// further write returns Ok(0) (a fixed-size buffer such as `&mut [u8]`)
+    #[serde(default)]
+    pub full_zero: bool,
 }
 
 impl Default for SinkSpec {
     fn default() -> Self {
-        SinkSpec { mode: Frag::Whole, pseed: 0, eintr_calls: vec![], enospc_after: None, flush_error: false }
+        SinkSpec { mode: Frag::Whole, pseed: 0, eintr_calls: vec![], enospc_after: None, flush_error: false, full_zero: false }
     }
 }
 
